@@ -14,7 +14,7 @@ NSS = ["n1", "n2"]
 BODIES = [0, 1]
 VERSIONS = [None, "1", "2"]
 INCLUDES = [(), (1,), (1, 2), (2, 1), ("1",)]
-CALL_OPTS = [{}, {"x": 1}, {"x": 2}]
+CALL_OPTS = [{}, {"x": 1}, {"memory": 1}, {"memory": 2}]  # "memory" is also a definition-time option (DEF_OPTS): an override equal to it is still an override
 DEF_OPTS = [{}, {"memory": 1}, {"memory": 2}]
 DECOS = [0, 1, 2]  # 0: plain, 1: an extra decorator line, 2: the @task(...) call spread over several lines
 
@@ -105,6 +105,37 @@ def wrapped_leg(ctx):
             it = task(name=outer_name, namespace="c17w", source=f"def inner(x): return x + {inner_body}")(inner)
             wt = dbl(it)
             rows.append((("wrapped", outer_name, inner_body, tuple(wrapper_inc)), wt.hash, f"wrapper over {outer_name} body {inner_body} includes {wrapper_inc}"))
+        # ONE decorator object applied to two tasks, in both orders (and the decorator built without wrapper_hash_includes, twice):
+        # a wrapped task's hash must not depend on what the decorator wrapped before or after it
+        for wrapper_inc, order in itertools.product([(), (5,), None], [(("w", 0), ("v", 1)), (("v", 1), ("w", 0)), (("w", 1), ("w", 0))]):
+            tm._task_registry = TaskRegistry()
+            from redun import task
+
+            def make_deco():
+                kw = {} if wrapper_inc is None else {"wrapper_hash_includes": list(wrapper_inc)}
+
+                @wraps_task(wrapper_name="dbl", **kw)
+                def dbl(inner):
+                    def do(*a, **k):
+                        return 2 * inner.func(*a, **k)
+                    return do
+                return dbl
+
+            deco = make_deco()
+            made = []
+            for k, (outer_name, inner_body) in enumerate(order):
+                def inner(x):
+                    return x
+
+                it = task(name=outer_name, namespace="c17w", source=f"def inner(x): return x + {inner_body}")(inner)
+                wt = (deco if wrapper_inc is not None else make_deco())(it)
+                # (own identity class: the wrapper function's source text, indentation included, differs from the loop above)
+                ident = ("wrapped-shared-decorator", outer_name, inner_body, tuple(wrapper_inc or ()))
+                how = f"wrapper (includes {wrapper_inc}) over {outer_name} body {inner_body}, #{k + 1} wrapped by the same decorator in order {order}"
+                rows.append((ident, wt.hash, how))
+                made.append((ident, wt, how))
+            for ident, wt, how in made:
+                rows.append((ident, wt._calc_hash(), how + " (hash recomputed after all were wrapped)"))
     finally:
         tm._task_registry = saved
     return rows
